@@ -359,7 +359,9 @@ def route_case(rules, msgs, raising=(), removed=()):
         def cb(m, n=n):
             got.setdefault(n, []).append(m)
             if n in raising:
-                raise RuntimeError('callback %d fails' % n)
+                # whatever a callback raises - an ordinary error, or the cancellation / generator-exit signals that do not derive from Exception
+                import asyncio
+                raise (RuntimeError, asyncio.CancelledError, GeneratorExit)[(n + len(rules)) % 3]('callback %d fails' % n)
         ids.append(r.addMatch(cb, **rule))
     if len(set(ids)) != len(ids):
         return 'rule ids not fresh: %r' % ids
@@ -370,7 +372,11 @@ def route_case(rules, msgs, raising=(), removed=()):
         m = FakeMsg(md)
         try:
             r.routeMessage(m)
-        except Exception as e:
+        except (Exception, GeneratorExit) as e:
+            return 'routeMessage raised %s: %s (rules %r, message %r)' % (type(e).__name__, e, rules, md)
+        except BaseException as e:
+            if type(e).__name__ != 'CancelledError':
+                raise
             return 'routeMessage raised %s: %s (rules %r, message %r)' % (type(e).__name__, e, rules, md)
         for n, rule in enumerate(rules):
             want = 0 if n in removed else (1 if ref_matches(rule, md) else 0)
@@ -641,8 +647,15 @@ def daemon_rule_text_case():
     wide = ['a%d' % i for i in range(14)]
     rules = [r for r in RULES if r] + [
         {'args': [(10, 'a10')]}, {'args': [(13, 'a13'), (1, 'a1')]}, {'args': [(10, 'zz')]}, {'arg_paths': [(12, '/w/')]},
-        {'arg_paths': [(11, '/w/x')], 'args': [(0, 'a0')]}, {'mtype': 'signal', 'member': 'Sig', 'args': [(63, 'far')]}]
+        {'arg_paths': [(11, '/w/x')], 'args': [(0, 'a0')]}, {'mtype': 'signal', 'member': 'Sig', 'args': [(63, 'far')]},
+        # values with characters that mean nothing special between the quotes of a rule text: backslashes, blanks, a colon
+        {'args': [(0, 'C:\\Users\\me')]}, {'args': [(1, '^\\d+$')]}, {'args': [(0, 'two words')]}, {'args': [(0, 'trailing\\')]}]
     msgs = MSGS + [
+        {'type': 4, 'interface': 'org.a.I', 'member': 'Sig', 'path': '/a/b', 'body': ['C:\\Users\\me', '^\\d+$']},
+        {'type': 4, 'interface': 'org.a.I', 'member': 'Sig', 'path': '/a/b', 'body': ['C:\\\\Users\\\\me', '^\\\\d+$']},
+        {'type': 4, 'interface': 'org.a.I', 'member': 'Sig', 'path': '/a/b', 'body': ['two words', 'x']},
+        {'type': 4, 'interface': 'org.a.I', 'member': 'Sig', 'path': '/a/b', 'body': ['trailing\\', 'x']},
+        {'type': 4, 'interface': 'org.a.I', 'member': 'Sig', 'path': '/a/b', 'body': ['trailing\\\\', 'x']},
         {'type': 4, 'interface': 'org.a.I', 'member': 'Sig', 'path': '/a/b', 'body': list(wide)},
         {'type': 4, 'interface': 'org.a.I', 'member': 'Sig', 'path': '/a/b', 'body': wide[:10] + ['other'] + wide[11:]},
         {'type': 4, 'interface': 'org.a.I', 'member': 'Sig', 'path': '/a/b', 'body': wide[:11] + ['/w/x', '/w/x/y', 'a13']},
